@@ -169,6 +169,9 @@ func constToVal(e *Enc, v constant.Value, t types.Type) Val {
 	return Val{T: "0", Typ: mathInt}
 }
 
+// ghostMaps: map types made for ghost state (SMT arrays); every other map type is a Go map (a reference into the map heaps)
+var ghostMaps = map[types.Type]bool{}
+
 func ghostGoType(t string) types.Type {
 	switch strings.TrimSpace(t) {
 	case "bool":
@@ -180,10 +183,14 @@ func ghostGoType(t string) types.Type {
 	}
 	if strings.HasPrefix(t, "map[") {
 		i := strings.Index(t, "]")
-		return types.NewMap(ghostGoType(t[4:i]), ghostGoType(t[i+1:]))
+		m := types.NewMap(ghostGoType(t[4:i]), ghostGoType(t[i+1:]))
+		ghostMaps[m] = true
+		return m
 	}
 	if strings.HasPrefix(t, "seq[") {
-		return types.NewMap(mathInt, ghostGoType(t[4:len(t)-1]))
+		m := types.NewMap(mathInt, ghostGoType(t[4:len(t)-1]))
+		ghostMaps[m] = true
+		return m
 	}
 	return mathInt
 }
@@ -299,6 +306,9 @@ func (f *Frame) lookupProgramVar(name string, env *specEnv) (Val, bool) {
 			if nm := identName(dr); nm != name {
 				continue
 			}
+			if os.Getenv("RTV_DEBUG") != "" {
+				fmt.Fprintf(os.Stderr, "  cand %s: block %d idx %d X=%s pos=%v\n", name, b.Index, i, dr.X.Name(), e.P.Fset.Position(dr.Pos()))
+			}
 			if _, defined := f.vals[dr.X]; !defined {
 				if _, isC := dr.X.(*ssa.Const); !isC {
 					if _, isP := dr.X.(*ssa.Parameter); !isP {
@@ -311,9 +321,40 @@ func (f *Frame) lookupProgramVar(name string, env *specEnv) (Val, bool) {
 			}
 		}
 	}
+	if c, isConst := best.(*ssa.Const); isConst && c.IsNil() {
+		// "x := T{...}" for maps is recorded by go/ssa as a DebugRef to nil at the declaration; if every other reference
+		// to the variable names one and the same value, the variable is that value from its definition on.
+		var sole ssa.Value
+		ok := true
+		for _, b := range fn.Blocks {
+			for _, in := range b.Instrs {
+				dr, isDR := in.(*ssa.DebugRef)
+				if !isDR || dr.IsAddr || identName(dr) != name {
+					continue
+				}
+				if _, isC := dr.X.(*ssa.Const); isC {
+					continue
+				}
+				if sole != nil && sole != dr.X {
+					ok = false
+				}
+				sole = dr.X
+			}
+		}
+		if ok && sole != nil {
+			if in, isIn := sole.(ssa.Instruction); isIn {
+				if _, defined := f.vals[sole]; defined && (env.block == nil || in.Block() == env.block || in.Block().Dominates(env.block)) {
+					best = sole
+				}
+			}
+		}
+	}
 	if best != nil {
 		v := f.val(best)
 		v.Typ = best.Type()
+		if os.Getenv("RTV_DEBUG") != "" {
+			fmt.Fprintf(os.Stderr, "lookup %s: best=%s (%T) -> %q\n", name, best.Name(), best, v.T)
+		}
 		return v, true
 	}
 	for _, p := range fn.Params {
@@ -627,6 +668,13 @@ func (f *Frame) specIndex(n SIndex, env *specEnv) Val {
 	case *types.Array:
 		return Val{T: fmt.Sprintf("(select %s %s)", x.T, i.T), Typ: t.Elem()}
 	case *types.Map:
+		if !ghostMaps[x.Typ] {
+			// Go map: value stored under the key, or the zero value
+			hn, vsort, psort := f.mapHeap(t)
+			vals := e.getHeap(env.st, hn+"_v", vsort)
+			pres := e.getHeap(env.st, hn+"_p", psort)
+			return Val{T: ite(fmt.Sprintf("(select (select %s %s) %s)", pres, x.T, i.T), fmt.Sprintf("(select (select %s %s) %s)", vals, x.T, i.T), e.tt().zero(t.Elem())), Typ: t.Elem()}
+		}
 		return Val{T: fmt.Sprintf("(select %s %s)", x.T, i.T), Typ: t.Elem()}
 	case *types.Pointer:
 		if at, ok := isArray(t.Elem()); ok {
@@ -738,6 +786,11 @@ func (f *Frame) specCall(n SCall, env *specEnv) Val {
 			if at, ok := isArray(x.Typ); ok {
 				return Val{T: fmt.Sprint(at.Len()), Typ: mathInt}
 			}
+			if mt, ok := x.Typ.Underlying().(*types.Map); ok {
+				hn, _, _ := f.mapHeap(mt)
+				ln := e.getHeap(env.st, hn+"_n", "(Array Int Int)")
+				return Val{T: fmt.Sprintf("(select %s %s)", ln, x.T), Typ: mathInt}
+			}
 		}
 		return f.specFail("len of %s", x.T)
 	case "cap":
@@ -751,7 +804,7 @@ func (f *Frame) specCall(n SCall, env *specEnv) Val {
 				ref = fmt.Sprintf("(s-ref %s)", x.T)
 			}
 		}
-		return Val{T: e.isFresh(ref, env.old.alloc), Typ: boolT}
+		return Val{T: e.isFresh(ref, f.freshBase(env)), Typ: boolT}
 	case "allocated": // existed at entry
 		x := f.specTerm(n.Args[0], env)
 		ref := x.T
@@ -760,7 +813,16 @@ func (f *Frame) specCall(n SCall, env *specEnv) Val {
 				ref = fmt.Sprintf("(s-ref %s)", x.T)
 			}
 		}
-		return Val{T: fmt.Sprintf("(<= (base %s) %s)", ref, env.old.alloc), Typ: boolT}
+		return Val{T: fmt.Sprintf("(<= (base %s) %s)", ref, f.freshBase(env)), Typ: boolT}
+	case "isalloc": // allocated by now (in the state the formula is evaluated in)
+		x := f.specTerm(n.Args[0], env)
+		ref := x.T
+		if x.Typ != nil {
+			if _, ok := x.Typ.Underlying().(*types.Slice); ok {
+				ref = fmt.Sprintf("(s-ref %s)", x.T)
+			}
+		}
+		return Val{T: fmt.Sprintf("(<= (base %s) %s)", ref, env.st.alloc), Typ: boolT}
 	case "istype":
 		x := f.specTerm(n.Args[0], env)
 		ty, ok := n.Args[1].(SType)
@@ -796,6 +858,19 @@ func (f *Frame) specCall(n SCall, env *specEnv) Val {
 	case "off":
 		x := f.specTerm(n.Args[0], env)
 		return Val{T: fmt.Sprintf("(s-off %s)", x.T), Typ: mathInt}
+	case "haskey": // haskey(m, k): k is a key of the Go map m
+		m := f.specTerm(n.Args[0], env)
+		k := f.specTerm(n.Args[1], env)
+		mt, ok := m.Typ.Underlying().(*types.Map)
+		if !ok {
+			return f.specFail("haskey needs a map")
+		}
+		hn, _, psort := f.mapHeap(mt)
+		if os.Getenv("RTV_DEBUG") != "" {
+			fmt.Fprintf(os.Stderr, "haskey: m=%q %#v\n", m.T, n.Args[0])
+		}
+		pres := e.getHeap(env.st, hn+"_p", psort)
+		return Val{T: fmt.Sprintf("(select (select %s %s) %s)", pres, m.T, k.T), Typ: boolT}
 	case "isExist":
 		x := f.specTerm(n.Args[0], env)
 		return Val{T: fmt.Sprintf("(is-exist %s)", x.T), Typ: boolT}
@@ -1277,4 +1352,13 @@ func substSpec(x SExpr, sub map[string]SExpr) SExpr {
 		return SCall{n.Fn, args}
 	}
 	return x
+}
+
+// freshBase: the allocation mark that fresh()/allocated() refer to: the entry of the function under verification, also
+// inside the loop invariants of a closure inlined into it; at a call site, the state before the call.
+func (f *Frame) freshBase(env *specEnv) string {
+	if !env.callSite && f.parent != nil {
+		return f.topFrame().alloc0
+	}
+	return env.old.alloc
 }
